@@ -92,3 +92,48 @@ pub fn c17_cmp_by_consensus() {
         chk!((la == lb) == (a == b), "RelLockTime equality is equality of encodings");
     }
 }
+
+/// reference compact-size length
+fn compact_size(n: u64) -> usize {
+    if n < 0xfd {
+        1
+    } else if n <= 0xffff {
+        3
+    } else if n <= 0xffff_ffff {
+        5
+    } else {
+        9
+    }
+}
+
+/// `ItemSize::size` of the witness placeholders a plan is made of (hook H3b) - what
+/// `Plan::witness_size` / `satisfaction_weight` add up: every item is its serialized length plus
+/// its compact-size length prefix.  The leaf script has a SYMBOLIC length (0..=70000), so the
+/// 253 / 65536 boundaries of the prefix are inside the domain.
+// @h c17_placeholder_sizes timeout=900 mem=8
+#[cfg_attr(kani, kani::proof)]
+#[cfg_attr(kani, kani::unwind(3))]
+pub fn c17_placeholder_sizes() {
+    use miniscript::bitcoin::ScriptBuf;
+    use miniscript::miniscript::satisfy::Placeholder;
+    let len = sym::usize_();
+    sym::assume(len <= 70_000);
+    let script = ScriptBuf::from_bytes(vec![0u8; len]);
+    let p: Placeholder<Pk> = Placeholder::TapScript(script);
+    let sz = hk::placeholder_size(&p);
+    chk!(sz == len + compact_size(len as u64), "witness size of the leaf script item is its length plus the compact-size prefix");
+    cover!(len == 253, "3-byte prefix boundary");
+    cover!(len == 65_536, "5-byte prefix boundary");
+    core::mem::forget(p);
+    let one: Placeholder<Pk> = Placeholder::PushOne;
+    let zero: Placeholder<Pk> = Placeholder::PushZero;
+    let hd: Placeholder<Pk> = Placeholder::HashDissatisfaction;
+    chk!(hk::placeholder_size(&one) == 2 && hk::placeholder_size(&zero) == 1 && hk::placeholder_size(&hd) == 33, "sizes of <1>, <> and the 32-byte hash dissatisfaction incl. length prefix");
+    // a template: sum of the items plus the compact-size item count
+    let n = sym::u8_() as usize;
+    sym::assume(n <= 2);
+    let t: [Placeholder<Pk>; 2] = [Placeholder::PushOne, Placeholder::HashDissatisfaction];
+    let want = (if n >= 1 { 2 } else { 0 }) + (if n >= 2 { 33 } else { 0 }) + 1;
+    chk!(hk::template_witness_size(&t[..n]) == want, "witness_size is the sum of the item sizes plus the item count prefix");
+    core::mem::forget(t);
+}
